@@ -206,3 +206,30 @@ def observe_apply(domain, act, args, objects, state, allow=False, skip=False, op
         return {"st": project_state(nxt)}, nxt
     except Exception as e:  # noqa: BLE001
         return {"exc": exc_name(e)}, None
+
+
+# ---------------------------------------------------------------------------------------
+# problems
+
+def project_problem(problem):
+    """public attributes of a parsed Problem -> JSON in the spec's vocabulary"""
+    init = State(problem.initial_state_predicates, problem.initial_state_fluents, is_init=True)
+    goal_lits = [[g.name, list(g.grounded_objects)] for g in problem.goal_state_predicates]
+    goal_cmps = [sexp_reader.read(t.to_pddl()) for t in problem.goal_state_fluents]
+    return {"name": problem.name, "objs": sorted([o.name, o.type.name] for o in problem.objects.values()),
+            "objs_keys_ok": all(k == o.name for k, o in problem.objects.items()),
+            "init": project_state(init), "goal_lits": goal_lits, "goal_cmps": goal_cmps}
+
+
+def observe_problem(text, domain):
+    try:
+        prob = parse_problem_text(text, domain)
+        return {"prob": project_problem(prob)}, prob
+    except Exception as e:  # noqa: BLE001
+        return {"exc": exc_name(e)}, None
+
+
+def type_graph(domain):
+    from pddl_plus_parser.models import create_type_hierarchy_graph
+    g = create_type_hierarchy_graph(domain.types)
+    return sorted([a, b] for a, b in g.edges()), sorted(g.nodes())
